@@ -6,7 +6,7 @@ from .. import cbuild, core, pscommon as pc, seeds, toolrun
 LEVEL = "exploration"
 ENGINE = "progspace"
 TECHNIQUE = "bounded exhaustive exploration: every pack of the type catalogue and every seed program (C and C++) compiled by the same compiler in every debug-info configuration {DWARF 4, DWARF 5} x {column info on/off} x {type units on/off for C++}; all pairs of configurations compared with abidiff; oracle = identical verdict (exit 0, empty report) in both directions"
-RULE = ("sources: packs of 40 catalogue nodes (C) and the seed programs (C: basic nested recursive two_tu symbols big; C++: cxx cxx_anon + the C++ feature programs below); compilers gcc and clang, never mixed inside a pair; configurations: "
+RULE = ("sources: packs of 40 catalogue nodes (C) and the seed programs (C: basic nested recursive two_tu symbols big; C++: cxx cxx_anon + the C++ feature programs below; + two C programs with bit-fields at bit offsets 120 ... 560000, members at offsets around 127/255/32767/80000 and enumerators around the 1-/2-byte constant limits); compilers gcc and clang, never mixed inside a pair; configurations: "
         "-gdwarf-4, -gdwarf-5, each with/without -gno-column-info, and for C++ each with/without -fdebug-types-section. For every unordered pair of configurations of one source and compiler: abidiff A B and abidiff B A "
         "must exit 0 with an empty report. Non-trivial: every comparison (the binaries differ in their .debug_* sections by construction).")
 TEXT = "All pairs of configurations for every source; quick uses every other pack."
@@ -34,6 +34,35 @@ union U { int i; float f; Inner* p; };
 typedef int (*cb_t)(const Inner&, E);
 int call(cb_t cb, Inner& in, U u) { return cb(in, E::A) + u.i; }
 Inner g_inner;
+''',
+}
+
+
+# C programs for the corners of the DWARF encodings: bit-fields whose bit offset needs 1-, 2- and 4-byte constant forms
+# (DW_AT_data_bit_offset in DWARF 5 vs DW_AT_bit_offset + DW_AT_data_member_location before), large member offsets, large arrays
+C_EXTRA = {
+    "bitfield_offsets": r'''
+struct B1 { char pad[15]; unsigned a:3; unsigned b:5; };                 /* bit offsets 120, 123 */
+struct B2 { char pad[16]; unsigned a:3; unsigned b:7; int c:9; };        /* 128 .. */
+struct B3 { char pad[31]; unsigned char a:1; unsigned char b:7; };       /* 248, 249 */
+struct B4 { char pad[32]; unsigned a:1; long l:33; };                    /* 256 */
+struct B5 { char pad[4095]; unsigned char a:2; unsigned char b:2; };     /* 32760 */
+struct B6 { char pad[4096]; unsigned a:4; unsigned b:28; };              /* 32768 */
+struct B7 { char pad[8191]; unsigned char a:3; };                        /* 65528 */
+struct B8 { char pad[8192]; unsigned a:5; int b:20; };                   /* 65536 */
+struct B9 { char pad[70000]; unsigned a:11; unsigned b:21; long tail; }; /* 560000 */
+int f1(struct B1* p) { return p->a; } int f2(struct B2* p) { return p->c; } int f3(struct B3* p) { return p->b; }
+int f4(struct B4* p) { return (int)p->l; } int f5(struct B5* p) { return p->b; } int f6(struct B6* p) { return p->b; }
+int f7(struct B7* p) { return p->a; } int f8(struct B8* p) { return p->b; } int f9(struct B9* p) { return p->b; }
+''',
+    "large_offsets": r'''
+struct L1 { char pad[127]; char at127; char at128; short s; };
+struct L2 { char pad[255]; char at255; int at256; };
+struct L3 { char pad[32767]; char at32767; long at32768; };
+struct L4 { int big[20000]; char at80000; double d; };
+enum E1 { E_NEG = -129, E_M1 = -1, E_127 = 127, E_128 = 128, E_255 = 255, E_256 = 256, E_BIG = 70000 };
+int g1(struct L1* p) { return p->at128; } int g2(struct L2* p) { return p->at256; } long g3(struct L3* p) { return p->at32768; }
+double g4(struct L4* p) { return p->d; } enum E1 g5(enum E1 e) { return e; }
 ''',
 }
 
@@ -69,6 +98,9 @@ def stages(ctx):
     for n in CXX_EXTRA:
         for cc in ("gcc", "clang"):
             el.append({"kind": "cxx", "name": n, "cc": cc, "id": n})
+    for n in C_EXTRA:
+        for cc in ("gcc", "clang"):
+            el.append({"kind": "cextra", "name": n, "cc": cc, "id": n})
     return [("sources-x-compilers-x-config-pairs", el)]
 
 
@@ -79,6 +111,8 @@ def _build(e, flags):
         s = seeds.SEEDS[e["seed"]]
         fl = list(flags) + (["-std=c++11"] if s["lang"] == "c++" else [])
         return cbuild.compile_units([(f, src, fl) for f, src in s["units"]], link_flags=list(s["link"]) + ["-Wl,-soname,libx.so"], out_name="libx.so", cc=e["cc"], extra_files=s.get("extra"), tag="c43")
+    if e["kind"] == "cextra":
+        return cbuild.compile_units([("x.c", C_EXTRA[e["name"]], list(flags))], link_flags=["-Wl,-soname,libx.so"], out_name="libx.so", cc=e["cc"], tag="c43")
     return cbuild.compile_units([("x.cc", CXX_EXTRA[e["name"]], list(flags) + ["-std=c++11"])], link_flags=["-Wl,-soname,libx.so"], out_name="libx.so", cc=e["cc"], tag="c43")
 
 
